@@ -16,12 +16,15 @@ import (
 // plan was unsound). The band inside which the oracle abstains is therefore, at the boundary
 // between k and k+1 seats (B(k) = Pr(X<=k)):
 //
-//   tol(k) = rho(n) · min(Pr(X<=k), Pr(X>k))  +  2^-52 · pmf(k) · (n-k)
+//   tol(k) = rho(n) · min(Pr(X<=k), Pr(X>k))  +  2^-51 · pmf(k) · (n-k)
 //
-//   rho(n) = clamp(64 · 2^-53 · n · ln(n+2), 1e-10, 1e-6)      (≥ 20× the measured error)
+//   rho(n) = clamp(64 · 2^-53 · n · ln(n+2), 1e-10, 1e-6)      (≥ 10× the measured error)
 //
-// The second term is the first-order effect on B(k) of perturbing 1-p by one part in 2^52
-// (dB(k)/dp = -pmf(k)(n-k)/(1-p)): the code forms 1-p and 1-(1-p) in float64.
+// The second term is the first-order effect on B(k) of perturbing 1-p by one part in 2^51
+// (dB(k)/dp = -pmf(k)(n-k)/(1-p)): the code forms 1-p and 1-(1-p) in float64, which moves p by at
+// most 2^-54 (half an ulp of 1-p >= 1/2; exact for p >= 1/2), i.e. at most a quarter of this term.
+// For p < 2^-54 the code's 1-p is 1 and it answers 0 seats for every output: that too stays
+// inside this term (n·p < 6e-10 for every stake <= 10^7).
 // One seat's own mass pmf(k) exceeds tol(k) by orders of magnitude everywhere except in far tails
 // of near-degenerate distributions, so off-by-one answers, a wrong mirror, a swapped inequality or
 // a wrong branch are refuted while float noise is not. Samples inside the band are counted as
@@ -41,12 +44,12 @@ func rho(n int64) float64 {
 type oracle struct {
 	tb    *model.C04Table
 	rho   *big.Float
-	eps52 *big.Float
+	eps51 *big.Float
 	half  *big.Float
 }
 
 func newOracle(tb *model.C04Table) *oracle {
-	return &oracle{tb: tb, rho: model.C04F(rho(tb.N)), eps52: model.C04F(math.Ldexp(1, -52)), half: model.C04F(0.5)}
+	return &oracle{tb: tb, rho: model.C04F(rho(tb.N)), eps51: model.C04F(math.Ldexp(1, -51)), half: model.C04F(0.5)}
 }
 
 // tolParts returns the two terms of tol(k): the incomplete-beta term and the 1-p rounding term.
@@ -59,7 +62,7 @@ func (o *oracle) tolParts(k int64) (beta, round *big.Float) {
 	beta = model.C04New().Mul(o.rho, m)
 	round = model.C04New()
 	if k >= o.tb.Lo && k <= o.tb.Hi && k < o.tb.N {
-		round.Mul(o.eps52, o.tb.PmfAt(k))
+		round.Mul(o.eps51, o.tb.PmfAt(k))
 		round.Mul(round, model.C04New().SetInt64(o.tb.N-k))
 	}
 	return
